@@ -643,6 +643,8 @@ class GenA:
                 c = top / bottom if bottom > 0 and top > 0 else cur / 2
         if c <= 0:
             return None
+        if c < self.p.get('min_conc_base', 0):
+            return None         # configurations with different internal_precision would parse such a target differently
         conc = self.fmt_conc(c, units, digits=5 if self.round else 9)
         ev = {'op': 'dilute', 'tgt': [t[0], t[1]], 'solute': solute, 'conc': conc, 'solvent': solvent, 'obs': rng.randrange(1 << 30)}
         if rng.random() < 0.2:
@@ -713,6 +715,8 @@ class GenA:
         if not cur:
             return None
         c = cur * F(repr(round(rng.uniform(0.1, 0.9), 2)))
+        if c < self.p.get('min_conc_base', 0):
+            return None
         vol = W.model.volume(m) * F(repr(round(rng.uniform(0.05, 0.6), 2)))
         self.n_sol += 1
         return {'op': 'solution_from', 'src': [t[0], t[1]], 'solute': solute, 'conc': f"{dec(c, 6)} M", 'solvent': solvent,
